@@ -23,10 +23,15 @@ TheOne(S) == CHOOSE x \in S : TRUE
 
 V20 == <<50, 46, 48, 10>>          \* "2.0\n"
 
+\* the digits before the first '.', when the text starts with digits followed by a '.' (else <<>>)
+RECURSIVE DigitsPrefix(_, _)
+DigitsPrefix(t, k) == IF k <= Len(t) /\ IsDigit(t[k]) THEN DigitsPrefix(t, k + 1) ELSE k - 1
+MajorOf(text) == LET n == DigitsPrefix(text, 1) IN
+                 IF n >= 1 /\ n < Len(text) /\ text[n + 1] = DOT THEN SubSeq(text, 1, n) ELSE <<>>
 \* what the property says about the debian-binary text
 BinaryClass(text) ==
     IF Len(text) >= 4 /\ SubSeq(text, 1, 4) = V20 THEN "ok"       \* first line "2.0"; deb(5): further lines are to be ignored
-    ELSE IF Len(text) >= 2 /\ IsDigit(text[1]) /\ text[2] = DOT /\ text[1] # 50 THEN "reject"   \* major version not 2
+    ELSE IF MajorOf(text) # <<>> /\ MajorOf(text) # <<50>> THEN "reject"                       \* "<digits>." with a major version other than 2 (3.0, 1.0, 20.0)
     ELSE "unspecified"                                                       \* 2.1, missing newline, junk
 
 \* standard layout: debian-binary, control, data first, in that order
@@ -55,8 +60,13 @@ RegularFiles(files) == SelectSeq(files, LAMBDA f : f.kind # "dir")
 \* ---- C16: ideal signatures -------------------------------------------------
 \* a detached signature verifies iff its key is in the keyring and it was made
 \* over exactly the (untampered) members that are presented, in that order
+\* (the signature member may hold further signature packets, `more` = Seq([key, over]); over = <<>> is a signature
+\*  over the empty input.  Whatever order they are tried in, one of them must be such a signature)
+MorePackets(sig) == IF "more" \in DOMAIN sig THEN sig.more ELSE <<>>
+Packets(sig) == <<[key |-> sig.key, over |-> sig.over]>> \o MorePackets(sig)
 Verifies(sig, presented, keyring, tampered) ==
-    /\ sig.key \in keyring
-    /\ sig.over = presented
-    /\ \A i \in Range(presented) : i \notin tampered
+    \E k \in 1..Len(Packets(sig)) :
+        /\ Packets(sig)[k].key \in keyring
+        /\ Packets(sig)[k].over = presented
+        /\ \A i \in Range(presented) : i \notin tampered
 =============================================================================
